@@ -30,7 +30,9 @@ enum Kind {
     Bad,
 }
 
-const TEXTS: [(&str, Kind); 10] = [
+const TEXTS: [(&str, Kind); 11] = [
+    // the same literal in the other case (literals are pooled for the life of the interpreter)
+    (" PRINT \"A\";", Kind::Good('A')),
     // blanks only by Unicode's definition: not a deletion, a line that does not tokenize
     (" \u{a0}", Kind::Bad),
     ("\u{b}", Kind::Bad),
